@@ -165,7 +165,26 @@ func (a *Adv) ContractProbes() int {
 				p.Leaf, p.Proof = leaf, toHashes(path)
 				return true
 			})
-			// proof presented for another live contract (its own challenge / root differ)
+			// the proven contract revised by the very transaction that proves it (only possible in the block in which the
+		// window opens): the revision commits to another file and a later window, the proof is for the old one. A proof
+		// is judged against the contract's latest accepted revision, so this cannot resolve the contract.
+		if lock, known := a.G.W.Locks[fc.UnlockHash]; pi == 0 && known && lock.UC != nil && fc.WindowStart == a.Child && fc.RevisionNumber < types.MaxRevisionNumber-1 && lock.Spendable(false, a.Child, MedianTimestamp(a.CS)) {
+			blk := CloneBlock(a.Honest)
+			x := &blk.Transactions[ti]
+			rev := fc
+			rev.ValidProofOutputs = append([]types.SiacoinOutput(nil), fc.ValidProofOutputs...)
+			rev.MissedProofOutputs = append([]types.SiacoinOutput(nil), fc.MissedProofOutputs...)
+			rev.RevisionNumber++
+			rev.FileMerkleRoot, rev.Filesize = types.Hash256{0xAB, 0xCD}, 192
+			rev.WindowStart, rev.WindowEnd = a.Child+10, a.Child+20
+			x.FileContractRevisions = append(x.FileContractRevisions, types.FileContractRevision{ParentID: e.ID, UnlockConditions: *lock.UC, FileContract: rev})
+			SignV1(a.CS, x, false)
+			if a.emit(blk, "v1-proof/proven-contract-revised-by-the-same-transaction/era-"+era, "reject", map[string]string{"leaves": sizeClassLeaves(nLeaves)}, nil) {
+				n++
+				probed = true
+			}
+		}
+		// proof presented for another live contract (its own challenge / root differ)
 			for _, o := range a.G.C.Store.SortedFC() {
 				if o.ID != e.ID && o.FileContract.WindowStart <= a.Child && o.FileContract.WindowStart >= 1 && o.FileContract.WindowEnd >= a.Child && o.FileContract.FileMerkleRoot != fc.FileMerkleRoot && o.FileContract.Filesize > 0 {
 					used := false
